@@ -599,6 +599,30 @@ func exhaustiveC03(thorough bool, emit func(C03Case) bool) {
 	}
 	// multi-byte tokens (BOM, fmt verbs, gzip magic, NEL/NBSP) at the start and inside of every
 	// text field of the FIRST record of a file without headers, and of a later record
+	// twin records: fields of equal length that differ in one byte, in one stream
+	if !twinFields(func(a, b gen.B) bool {
+		mk := func(q, rn, sq, ql, z gen.B) SamRec {
+			r := baseSamRec
+			r.Qname, r.Rname, r.Seq, r.Qual = q, rn, sq, ql
+			r.Tags = []SamTag{{Name: "NM", Type: "i", I: 2}, {Name: "ZZ", Type: "Z", Z: z}}
+			return r
+		}
+		return emit(C03Case{Kind: "file", Recs: []SamRec{mk(a, a, a, a, a), mk(b, a, a, a, a), mk(a, b, a, a, a), mk(a, a, b, a, a), mk(a, a, a, b, a), mk(a, a, a, a, b), mk(a, a, a, a, a)}})
+	}) {
+		return
+	}
+	// long reads without optional tags (and with an empty, non-nil tag list)
+	for _, n := range []int{32768, 65536, 1 << 20} {
+		r := baseSamRec
+		r.Seq = gen.B(bytes.Repeat([]byte("ACGT"), n/4))
+		r.Qual = gen.B(bytes.Repeat([]byte("IJ#~"), n/4))
+		r.Tags = nil
+		second := baseSamRec
+		second.Tags = []SamTag{}
+		if !emit(C03Case{Kind: "file", Recs: []SamRec{r, second, r}}) {
+			return
+		}
+	}
 	for _, tok := range gen.HostileTokens {
 		for field := 0; field < 7; field++ {
 			for pos := 0; pos < 3; pos++ {
